@@ -207,7 +207,14 @@ impl<S: Read + Write> Client<S> {
     /// ```
     pub fn connect(mut tpkt: tpkt::Client<S>, security_protocols: u32, check_certificate: bool, authentication_protocol: Option<&mut dyn AuthenticationProtocol>, restricted_admin_mode: bool, blank_creds: bool) -> RdpResult<Client<S>> {
         Self::write_connection_request(&mut tpkt, security_protocols, Some(if restricted_admin_mode { RequestMode::RestrictedAdminModeRequired as u8} else { 0 }))?;
-        match Self::read_connection_confirm(&mut tpkt)? {
+        let selected_protocol = Self::read_connection_confirm(&mut tpkt)?;
+        // The server have to select one of the protocols requested by the client
+        // Basic RDP security is only accepted when nothing else was requested
+        let requested = if selected_protocol as u32 == Protocols::ProtocolRDP as u32 { security_protocols == Protocols::ProtocolRDP as u32 } else { security_protocols & selected_protocol as u32 != 0 };
+        if !requested {
+            return Err(Error::RdpError(RdpError::new(RdpErrorKind::InvalidProtocol, "Server select a security protocol that was not requested")));
+        }
+        match selected_protocol {
             Protocols::ProtocolHybrid => Ok(Client::new(tpkt.start_nla(check_certificate, try_option!(authentication_protocol, "NLA selected by the server but no authentication protocol is available")?, restricted_admin_mode || blank_creds)?,Protocols::ProtocolHybrid)),
             Protocols::ProtocolSSL => Ok(Client::new(tpkt.start_ssl(check_certificate)?, Protocols::ProtocolSSL)),
             Protocols::ProtocolRDP => Ok(Client::new(tpkt, Protocols::ProtocolRDP)),
